@@ -15,7 +15,11 @@ ONLY = None
 def facts_for(patch, refresh=False):
     from hcsa import main as M
     os.makedirs(FACTS, exist_ok=True)
-    out = os.path.join(FACTS, os.path.basename(patch).replace(".patch", "").replace(".diff", "") + ".json")
+    import hashlib
+    base = os.path.basename(patch).replace(".patch", "").replace(".diff", "")
+    if base == "patch":   # <dir>/patch.diff: name the cache entry after the directory
+        base = os.path.basename(os.path.dirname(os.path.abspath(patch))) + "-" + hashlib.sha1(os.path.abspath(patch).encode()).hexdigest()[:6]
+    out = os.path.join(FACTS, base + ".json")
     head = subprocess.run(["git", "-C", REPO, "rev-parse", "HEAD"], capture_output=True, text=True).stdout.strip()
     stamp = out + ".stamp"
     want = head + " " + str(os.path.getmtime(patch))
